@@ -45,7 +45,8 @@ type Tree struct {
 	stale     *staleCtxInfo
 	shv       *shortHeavyInfo
 
-	rbf bool // flip tree used for the failing-rollback scenario
+	rbf  bool // flip tree used for the failing-rollback scenario
+	ctx2 *ctx2Info
 
 	// forceTime, if non-zero, is the timestamp of the next mined header
 	// (valid or not); reset by mine
@@ -364,3 +365,24 @@ type fixedTime struct{ t time.Time }
 func (f fixedTime) AdjustedTime() time.Time         { return f.t }
 func (f fixedTime) AddTimeSample(string, time.Time) {}
 func (f fixedTime) Offset() time.Duration           { return 0 }
+
+// ctx2Info: a branch header judged in the wrong context.
+// kind 0/1: W forks d = 6..8 blocks below the tip and is longer than the main
+// chain above the fork; its own timestamps (kind 0) or the main chain's
+// (kind 1) run many median windows ahead, and W's header at exactly tip+1
+// lies between the median over its own ancestors and the median over the main
+// chain's: kind 0 invalid on its own branch (fine on the main chain's
+// context), kind 1 valid (too old on the main chain's context).
+// kind 2/3: S is a one-header sibling of the stored non-tip header M whose
+// timestamp is as low as the median rule allows (kind 2) or M's is (kind 3);
+// Y forks AT M, longer than the main chain above M, its first header's
+// timestamp between the median with S and the median with M in the window:
+// kind 2 invalid, kind 3 valid.
+type ctx2Info struct {
+	kind    int
+	fork    *Node // fork point of W / the header M
+	wTip    *Node // tip of W / of Y
+	sPar, s *Node // kind 2/3: S and its parent
+	mainTip *Node
+	nowBig  int64
+}
